@@ -63,8 +63,14 @@ CLAIMED = {
        'list of per-recipient failures the bounces have pairwise different replies, every reply has its bounce, a bounce names only and at least one '
        'recipient that failed with its reply, and all failed recipients are named exactly once; for every attempt outcome the bounces name exactly '
        'the finally-failed recipients; a null-sender message (hence every bounce) never produces a bounce; a factory returning None produces none; over the composed queue machine (Model/QueueM.lean, see C01) under every interleaving: null_sender_no_bounce_interleaved, failed_are_bounced_interleaved. '
-       'Byte-level bounce content (addressed to the original sender only, reply quoted, original header block/body embedded unchanged, handed to '
-       'bounce_queue.enqueue) is checked on the real Bounce/Queue by the campaign; the real Queue is driven through failure histories and compared '
+       'The bytes of a bounce are inside the model too (Model/Bounce.lean: BytesFormat template scanning and substitution, Bounce._get_delivery_info / '
+       '_get_substitution_table / _build_message, then Envelope.parse / flatten of C20): bounce_embeds_original (any templates: when the formatted header template begins with a '
+       'well-formed header block, the bounce flattens to that block and a body = rest of the template ++ ORIGINAL HEADER DATA ++ ORIGINAL MESSAGE DATA (unless headers-only) ++ footer, byte for byte), '
+       'default_bounce / default_bounce_quotes_reply / default_bounce_embeds (the default templates of slimta/bounce, for every sender and boundary without a line break, every recipient list, reply, '
+       'client information and original message: To: the original sender, the recipients named, `code message` quoted, the original embedded unchanged). Tied to the code by building real Bounce objects '
+       '(default and random custom templates as str / bytes class attributes, clients with and without name / ip / protocol, reply addresses as str / tuple / none, 8-bit and LF-only originals, headers-only) '
+       'and comparing the bytes handed to Envelope.parse and the flattened result with the model; random templates through the real BytesFormat; the module-level default templates of the source are compared '
+       'with the model\'s on every run. That the bounce is addressed to the original sender only and handed to bounce_queue.enqueue is checked on the real Bounce/Queue by the campaign; the real Queue is driven through failure histories and compared '
        'round by round with the model.',
   ref='6/C13', technique='Lean 4 proof (grouping lemmas, case analysis over attempt outcomes) + differential correspondence vs real Queue/Bounce histories'),
  'C03': dict(
